@@ -810,6 +810,174 @@ def register(reg):
     reg.add(C.Contract(f"{DS}:DynamicScenario._checkSimulationTerminationConditions", params=dict(self=C.Const(None)), setup=setup_stc, post=post_stc, properties=("C12",)))
 
 
+def register_stop_and_startup(reg):
+    """DynamicScenario._stop (documented step 1e) and the start-up / wind-down order of Simulation.__init__ (step 10)."""
+
+    # =============================================================================== DynamicScenario._stop
+    def setup_stop(I, env):
+        eng = I.eng
+        log = eng.events
+        st = MD.current_state(I)
+        self = PObj(repo_class(f"{DS}:DynamicScenario"), tag="scenario")
+        quiet = MD.pick(I, 2, "quiet stop (clean-up after an exception)?") == 1
+
+        def part(kind, tag, running=True):
+            o = PObj(kind, tag=tag)
+            o.fields["_isRunning"] = running
+
+            def stop(reason=None, quiet=False):
+                log.append(("stop " + kind.lower(), tag, quiet))
+                o.fields["_isRunning"] = False
+
+            o.fields["_stop"] = BuiltinFn("_stop", stop)
+            return o
+
+        mons = [part("Monitor", "running monitor"), part("Monitor", "finished monitor", running=False)]
+        subs = [part("SubScenario", "running sub-scenario"), part("SubScenario", "finished sub-scenario", running=False)]
+        obj = PObj("Object", tag="overridden object")
+        obj.fields["_revert"] = BuiltinFn("_revert", lambda old: log.append(("revert", old)))
+        old = PDict([("foo", 0)])
+
+        def req(k):
+            r = PObj("RequirementMonitor", tag=f"temporal requirement {k}")
+            v = PObj("B4", tag="last value")
+            v.fields["is_falsy"] = MD.pick(I, 2, f"temporal requirement {k} unsatisfied at the end?") == 1
+            r.fields["lastValue"] = v
+            return r
+
+        rec = PObj("Recorder", tag="recorder")
+        rec.fields["endRecording"] = BuiltinFn("endRecording", lambda canceled=False: log.append(("end recording", canceled, self.fields["_isRunning"])))
+        cfg = PObj("RecordConfig", tag="record config")
+        cfg.fields["recorder"] = rec
+        rexpr = PObj("RecordedExpr", tag="record ... to file")
+        rexpr.fields["recConfig"] = cfg
+        self.fields.update(_isRunning=True, _monitors=PList(mons), _subScenarios=PList(subs), _runningIterator=Opaque("compose iterator"), _overrides=PDict([(obj, old)]), _requirementMonitors=PList([req(0), req(1)]), _recordedExprs=PList([rexpr]), _agent=None)
+        st.get("runningScenarios").items.append(self)
+        env.vars.update(self=self, reason="finished compose block", quiet=quiet)
+        env.vars["_oldvals"] = old
+
+    def post_stop(I, env, outcome):
+        eng = I.eng
+        name = "scenarios.DynamicScenario._stop[order]"
+        self, quiet = env.vars["self"], env.vars["quiet"]
+        ev = list(eng.events)
+        ks = [e[0] for e in ev]
+        unsat = 1 in MD.picked(I, "temporal requirement")
+        # (1e) "first recursively stop any sub-scenarios it is running, then revert the effects of any override statements"
+        eng.check(f"{name}#ensures.1e_running_monitors_and_sub_scenarios_stopped_then_overrides_reverted", ks[:3] == ["stop monitor", "stop subscenario", "revert"] and ev[0][1] == "running monitor" and ev[1][1] == "running sub-scenario" and ev[2][1] is env.vars["_oldvals"])
+        eng.check(f"{name}#ensures.1e_sub_scenarios_stopped_as_quietly_as_the_parent", ev[1][2] is quiet)
+        eng.check(f"{name}#ensures.scenario_marked_stopped_and_removed_from_the_running_list", self.fields["_isRunning"] is False and self not in MD.current_state(I).get("runningScenarios").items and self.fields["_runningIterator"] is None)
+        # "Next, check if any of its temporal requirements were not satisfied: if so, reject the simulation" -- after the clean-up, and never for a quiet stop
+        rejected = outcome[0] == "raise"
+        eng.check(f"{name}#ensures.1e_rejects_iff_a_temporal_requirement_is_unsatisfied_and_the_stop_is_not_quiet", rejected == (unsat and not quiet))
+        eng.check(f"{name}#ensures.recordings_ended_after_the_scenario_stopped_and_cancelled_on_rejection_or_quiet_stop", ks[3:] == ["end recording"] and ev[3][1] is (quiet or (unsat and not quiet)) and ev[3][2] is False)
+        if not rejected:
+            eng.check(f"{name}#ensures.returns_the_reason", outcome[1] == "finished compose block")
+
+    reg.add(
+        C.Contract(
+            f"{DS}:DynamicScenario._stop",
+            params=dict(self=C.Const(None), reason=C.Const(None), quiet=C.Const(None)),
+            setup=setup_stop,
+            post=post_stop,
+            inline=["Invocable._stop", "endScenario"],
+            raises=[C.Raises("RejectSimulationException", mode="may")],
+            bounded=True,
+            note="bounded: two monitors, two sub-scenarios (one of each still running), one overridden object, two temporal requirements, one recorder",
+            properties=("C12",),
+        ),
+        key=f"{DS}:DynamicScenario._stop[order]",
+    )
+
+    # =============================================================================== Simulation.__init__: start-up and wind-down order
+    reg.constructors.setdefault(f"{SIM}:SimulationResult", lambda I, cls, args, kwargs: PObj(cls, dict(args=tuple(args)), tag="result"))
+
+    def setup_init(I, env):
+        eng = I.eng
+        log = eng.events
+        st = MD.current_state(I)
+        dyn = PObj("DynamicScenario", tag="top-level scenario")
+        sub = PObj("DynamicScenario", tag="sub-scenario still running at the end")
+        dyn.fields.update(_setup=None)
+        dyn.fields["_bindTo"] = BuiltinFn("_bindTo", lambda sc: log.append(("bind", st.get("currentSimulation") is not None)))
+
+        def start():
+            log.append(("scenario start", len(self.fields["objects"].items), self.fields.get("agents") is not None))
+            st.get("runningScenarios").items.extend([dyn, sub])
+
+        def mk_stop(sc):
+            def stop(reason, quiet=False):
+                log.append(("scenario stop", sc.tag, quiet))
+                st.get("runningScenarios").items.remove(sc)
+                return reason
+
+            return BuiltinFn("_stop", stop)
+
+        dyn.fields["_start"] = BuiltinFn("_start", start)
+        dyn.fields["_stop"], sub.fields["_stop"] = mk_stop(dyn), mk_stop(sub)
+        dyn.fields["_evaluateRecordedExprs"] = BuiltinFn("_evaluateRecordedExprs", lambda ty, step: log.append(("record final", ty, step, len(st.get("runningScenarios").items))) or PDict([("r", 7)]))
+        obj = PObj("Object", tag="object")
+        obj.fields.update(_dynamicProxy=obj, behavior=None)
+        obj.fields["_copyWith"] = BuiltinFn("_copyWith", lambda: PObj("Object", tag="proxy"))
+        obj.fields["startDynamicSimulation"] = BuiltinFn("startDynamicSimulation", lambda: log.append(("startDynamicSimulation", obj.fields["_dynamicProxy"] is not obj)))
+        opts = PObj("CompileOptions", tag="options")
+        opts.fields["mode2D"] = False
+        scene = PObj("Scene", tag="scene")
+        scene.fields.update(dynamicScenario=dyn, objects=(obj,), params=PDict(), compileOptions=opts, behaviorNamespaces=PDict())
+        self = PObj(repo_class(f"{SIM}:Simulation"), tag="simulation")
+        self.fields["initializeReplay"] = BuiltinFn("initializeReplay", lambda *a: None)
+        self.fields["createObjectInSimulator"] = BuiltinFn("createObjectInSimulator", lambda o: log.append(("create", o.fields["_dynamicProxy"] is not o)))
+        self.fields["updateObjects"] = BuiltinFn("updateObjects", lambda: log.append(("updateObjects",)))
+        self.fields["_run"] = BuiltinFn("_run", lambda d, m: log.append(("run", d is dyn, m)) or ("type", "reason"))
+        self.fields["destroy"] = BuiltinFn("destroy", lambda: log.append(("destroy", self.fields.get("result") is not None)))
+        env.vars.update(self=self, scene=scene, maxSteps=5, name="sim", timestep=None)
+
+    def post_init(I, env, outcome):
+        eng = I.eng
+        name = "simulators.Simulation.__init__[order]"
+        if outcome[0] != "return":
+            eng.check(f"{name}#ensures.no_exception_in_a_normal_run", False, detail=repr(outcome[1]))
+            return
+        ev = list(eng.events)
+        ks = [e[0] for e in ev]
+        want = ["bind", "create", "startDynamicSimulation", "scenario start", "updateObjects", "run", "scenario stop", "scenario stop", "record final", "destroy"]
+        eng.check(f"{name}#ensures.global_state_then_objects_then_scenario_start_then_update_then_run_then_wind_down", ks == want, detail=repr(ks))
+        if ks != want:
+            return
+        eng.check(f"{name}#ensures.objects_created_behind_their_dynamic_proxy", ev[1][1] is True and ev[2][1] is True)
+        eng.check(f"{name}#ensures.scenario_started_after_all_objects_exist", ev[3][1] == 1 and ev[3][2] is True)
+        eng.check(f"{name}#ensures.run_with_the_top_level_scenario_and_the_step_limit", ev[5][1] is True and ev[5][2] == 5)
+        # step 10: remaining scenarios are stopped (youngest first, checking their requirements) BEFORE `record final` values are saved
+        eng.check(f"{name}#ensures.10_remaining_scenarios_stopped_youngest_first_not_quietly", [e[1] for e in ev[6:8]] == ["sub-scenario still running at the end", "top-level scenario"] and all(e[2] is False for e in ev[6:8]))
+        eng.check(f"{name}#ensures.10_record_final_saved_after_the_scenarios_stopped_at_the_final_time", ev[8][1] == "record final" and ev[8][2] == 0 and ev[8][3] == 0)
+        res = env.vars["self"].fields.get("result")
+        eng.check(f"{name}#ensures.result_packaged_before_the_simulator_is_destroyed", res is not None and ev[9][1] is True)
+        eng.check(f"{name}#ensures.final_records_in_the_result", res is not None and isinstance(res.fields["args"][4], object) and bm.get_item(I, env.vars["self"].fields["records"], "r") == 7)
+
+    reg.add(
+        C.Contract(
+            f"{SIM}:Simulation.__init__",
+            params=dict(self=C.Const(None), scene=C.Const(None), maxSteps=C.Const(None), name=C.Const(None), timestep=C.Const(None)),
+            setup=setup_init,
+            post=post_init,
+            inline=["isActive", "Simulation._createObject", "enableDynamicProxyFor", "disableDynamicProxyFor", "Simulation.setup"],
+            raises=[C.Raises("Exception", mode="may")],
+            bounded=True,
+            note="bounded: one object, one sub-scenario still running when the simulation ends; no faults (failure paths are property C14)",
+            properties=("C12",),
+        ),
+        key=f"{SIM}:Simulation.__init__[order]",
+    )
+
+
+_register_main = register
+
+
+def register(reg):  # noqa: F811
+    _register_main(reg)
+    register_stop_and_startup(reg)
+
+
 # ----------------------------------------------------------------------------------------------------
 # replay drivers (REAL code; the DummySimulator and small real programs)
 
